@@ -1672,7 +1672,7 @@ fn forged_request(rng: &mut Rng, genuine: &[u8], proto: u64, now_s: u64) -> Vec<
 
 fn script_attacker(rng: &mut Rng, _tier: Tier, f: &mut dyn FnMut(&str) -> String) {
     let mut sc = Sc::new(f);
-    let scenario = rng.below(19);
+    let scenario = rng.below(20);
     let max = match scenario {
         3 => 1,
         17 => 3,
@@ -2422,6 +2422,41 @@ fn script_attacker(rng: &mut Rng, _tier: Tier, f: &mut dyn FnMut(&str) -> String
             sc.op("srv-dump 0");
             hostile_srv(&mut sc, "hostile", &b, &reqs[0]);
         }
+        19 => {
+            // token T is used from A first (bound to A); address B opens a handshake of its own with token U and, while
+            // that is half-open, presents T: the binding is consulted for EVERY request, also from an address that is
+            // already in a handshake — nothing, and the response to a challenge obtained that way connects nobody.
+            // Both tokens belong to one party (cross-use between sessions it legitimately owns).
+            let (ta, ub) = if rng.chance(1, 2) { (0usize, 1usize) } else { (1, 0) };
+            let (_, ch_a) = srv_rx(&mut sc, &a[ta], &reqs[ta]);
+            let (_, ch_u) = srv_rx(&mut sc, &a[ub], &reqs[ub]);
+            sc.op("srv-dump 0");
+            let n = rng.range(1, 2);
+            for _ in 0..n {
+                if let (_, Some(ch)) = srv_rx(&mut sc, &a[ub], &reqs[ta]) {
+                    // (only if the server answered: T's owner answers that challenge from B)
+                    answer_challenge(&mut sc, cls[ta].h, &a[ub], &ch, None);
+                }
+            }
+            sc.op("srv-dump 0");
+            sc.op(&format!("srv-q 0 {}", cls[ta].tok.spec.id));
+            // the honest continuations: T from A, U from B (U's handshake was restarted by nothing)
+            if rng.chance(1, 2) {
+                sc.op("srv-upd 0 250000");
+                if let (_, Some(k)) = sc.opd(&format!("cli-upd {} 250000", cls[ub].h)) {
+                    let rq = sc.hist[k].bytes.clone();
+                    if let (_, Some(ch)) = srv_rx(&mut sc, &a[ub], &rq) {
+                        answer_challenge(&mut sc, cls[ub].h, &a[ub], &ch, None);
+                    }
+                }
+            } else if let Some(ch) = ch_u {
+                answer_challenge(&mut sc, cls[ub].h, &a[ub], &ch, None);
+            }
+            if let Some(ch) = ch_a {
+                answer_challenge(&mut sc, cls[ta].h, &a[ta], &ch, None);
+            }
+            sc.op("srv-dump 0");
+        }
         4 => {
             // connected session 0; the attacker (owner of session 1) injects packets sealed with its own
             // keys from the victim's address and replays the victim's handshake
@@ -3050,7 +3085,7 @@ fn script_wire(rng: &mut Rng, tier: Tier, f: &mut dyn FnMut(&str) -> String) {
 // profile 0: nc-regress — one fixed op list per repaired defect (deterministic, run on every check)
 // =============================================================================================
 
-const REGRESS_CASES: usize = 52;
+const REGRESS_CASES: usize = 53;
 
 fn regress_script(case: usize, f: &mut dyn FnMut(&str) -> String) {
     let mut rng = Rng::new(0xD1CE + case as u64);
@@ -4694,6 +4729,48 @@ fn regress_script(case: usize, f: &mut dyn FnMut(&str) -> String) {
                 }
             }
         }
+        // token 40 is used from A (bound to A); B has a half-open handshake with its own token 41 and then presents token
+        // 40: nothing (the binding table is consulted although B is in a handshake); both honest handshakes complete
+        52 => {
+            let (a, b) = (cls[0].addr.clone(), cls[1].addr.clone());
+            let mut req: Vec<Vec<u8>> = vec![];
+            let mut chal: Vec<Option<Vec<u8>>> = vec![None, None];
+            for (i, ad) in [(0usize, a.clone()), (1, b.clone())] {
+                if let (_, Some(k)) = sc.opd(&format!("cli-upd {} 0", i)) {
+                    let rq = sc.hist[k].bytes.clone();
+                    if let (_, Some(k)) = sc.opd(&format!("srv-rx 0 {} {}", ad, hex(&rq))) {
+                        chal[i] = Some(sc.hist[k].bytes.clone());
+                    }
+                    req.push(rq);
+                }
+            }
+            sc.op("srv-dump 0");
+            if req.len() == 2 {
+                let (out, e) = sc.opd(&format!("srv-rx 0 {} {}", b, hex(&req[0])));
+                if let (true, Some(k)) = (out.starts_with("send "), e) {
+                    let ch = sc.hist[k].bytes.clone();
+                    answer_challenge(&mut sc, 0, &b, &ch, None);
+                }
+                sc.op("srv-dump 0");
+                sc.op("srv-q 0 40");
+            }
+            // B's own handshake was not disturbed by the refused request; A's neither
+            sc.op("srv-upd 0 250000");
+            if let (_, Some(k)) = sc.opd("cli-upd 1 250000") {
+                let rq = sc.hist[k].bytes.clone();
+                if let (_, Some(k)) = sc.opd(&format!("srv-rx 0 {} {}", b, hex(&rq))) {
+                    let ch = sc.hist[k].bytes.clone();
+                    answer_challenge(&mut sc, 1, &b, &ch, Some("expect-connected"));
+                }
+            }
+            if let Some(ch) = chal[0].clone() {
+                answer_challenge(&mut sc, 0, &a, &ch, None);
+            }
+            sc.op("note expect-up:binding-broke-the-owner");
+            sc.op("srv-q 0 40");
+            sc.op("srv-q 0 41");
+            sc.op("srv-dump 0");
+        }
         // sequence 2^64-1 (the window's EMPTY sentinel) from the owner of a session
         _ => {
             fast_connect(&mut sc, &cls[0]);
@@ -4776,7 +4853,7 @@ fn regress_ops(case: usize) -> Vec<String> {
 /// To refresh after editing a script: `NC_FIXED_COUNTS=1 harness run --props C10 --profiles nc-regress,…` prints them.
 fn fixed_expected(tag: &str, case: usize) -> Option<usize> {
     const REGRESS: &[usize] = &[
-        30, 30, 30, 12, 16, 17, 24, 23, 30, 19, 21, 35, 33, 49, 551, 60, 85, 35, 50, 59, 69, 56, 43, 34, 26, 148, 104, 41, 49, 26, 44, 63, 36, 31, 38, 116, 26, 34, 70, 52, 541, 31, 42, 33, 30, 53, 52, 54, 103, 92, 63, 125,
+        30, 30, 30, 12, 16, 17, 24, 23, 30, 19, 21, 35, 33, 49, 551, 60, 85, 35, 50, 59, 69, 56, 43, 34, 26, 148, 104, 41, 49, 26, 44, 63, 36, 31, 38, 116, 26, 34, 70, 52, 541, 31, 42, 33, 30, 53, 52, 54, 103, 92, 63, 125, 32,
     ];
     match tag {
         "regress" => REGRESS.get(case).copied(),
